@@ -280,5 +280,6 @@ def main(chk):
         chk.sample({"program": progs[i], "expected": meta[i][1], "impl": {k: res[i]["impl"].get(k) for k in ("kind", "repr", "errk")},
                     "model_verdict": res[i]["verdict"]})
     chk.cov["rule"] += " Added after seeded round 5: `private?:` with non-true and forwarded values, a `_missing` that reads another absent name and absent names after a caught error, siblings without own properties after a sibling that shadows the name in a list chain."
+    chk.cov["rule"] += " Added after seeded round 6: non-ASCII names next to ASCII names with the same bytes modulo 256, `which` with names that are not identifiers."
     return pancore.conclude(chk, ok, broken, "Props/C05.v", res, viol, model_only, "C05",
                             "Core.Values.find_prop / Core.Interp.eval_prop vs object/findprop.go, evaluator/eval_propcall.go, native/Obj.pangaea")
